@@ -16,15 +16,25 @@ def rand_case(rng):
         k = rng.random()
         if k < 0.12 and depth < 2:
             return {'t': 'arr', 'a': [tv(depth + 1) for _ in range(rng.randint(1, 3))]}
+        if k > 0.9:       # numbers other than zero, however small or large
+            return enc(rng.choice([1e-16, -1e-16, 1e-300, 5e-324, 0.1 + 0.2 - 0.3, 2.0 ** 70, -1e300, 10 ** 25]))
         return rng.choice([enc(True), enc(False), enc(0), enc(1), enc(-2.5), enc(3), enc(0.5), {'t': 'blank'}, enc(0.0)])
-    f = rng.choice(['AND', 'OR', 'XOR', 'AND', 'OR', 'XOR', 'NOT', 'ISEVEN', 'ISODD', 'IFS', 'SWITCH', 'IF'])
+    f = rng.choice(['AND', 'OR', 'XOR', 'AND', 'OR', 'XOR', 'NOT', 'ISEVEN', 'ISODD', 'IFS', 'SWITCH', 'IF', 'PRED', 'PRED'])
+    if f == 'PRED':
+        f = rng.choice(['ISNUMBER', 'ISTEXT', 'ISLOGICAL', 'ISBLANK', 'ISERROR', 'ISERR', 'ISNA', 'ISNONTEXT'])
+        v = rng.choice([enc(x) for x in ('#N/A', '#DIV/0!', '#VALUE!', '#NAME?', '#n/a', 'TRUE', 'FALSE', '', ' ', '0', '1e3', 'None',
+                                         1e-300, 2.0 ** 70, 10 ** 25, 0, 0.0, -0.0, 1, 2.5, True, False)] +
+                       [{'t': 'blank'}, {'t': 'num', 'n': 2, 'd': 1, 'f': True}] +
+                       [{'t': 'err', 'c': c} for c in ('#N/A', '#DIV/0!', '#VALUE!', '#REF!', '#NAME?', '#NUM!', '#NULL!', '#ERROR!')])
+        return {'f': f, 'args': [v]}
     if f in ('AND', 'OR', 'XOR'):
         return {'f': f, 'args': [tv() for _ in range(rng.randint(1, 6))]}
     if f == 'NOT':
-        return {'f': f, 'args': [rng.choice([enc(True), enc(False), enc(0), enc(2), enc(-0.5), {'t': 'blank'}])]}
+        return {'f': f, 'args': [rng.choice([enc(True), enc(False), enc(0), enc(2), enc(-0.5), {'t': 'blank'}, enc(1e-16), enc(-5e-324)])]}
     if f in ('ISEVEN', 'ISODD'):
         return {'f': f, 'args': [enc(rng.choice([rng.randint(-50, 50), rng.randint(-50, 50) + 0.5, -0.5, 0.25, 1e6 + 1]))]}
-    conds = [enc(True), enc(False), enc(0), enc(2), {'t': 'blank'}, {'t': 'err', 'c': rng.choice(['#N/A', '#DIV/0!', '#NUM!'])}]
+    conds = [enc(True), enc(False), enc(0), enc(2), {'t': 'blank'}, {'t': 'err', 'c': rng.choice(['#N/A', '#DIV/0!', '#NUM!'])},
+             enc(rng.choice([1e-16, 1e-300, 0.1 + 0.2 - 0.3])), enc(0.0)]
     vals = [enc(10), enc('x'), enc(30), enc([1, 2]), {'t': 'blank'}, enc(False)]
     if f == 'IF':
         return {'f': f, 'args': [rng.choice(conds), rng.choice(vals), rng.choice(vals)]}
@@ -34,7 +44,8 @@ def rand_case(rng):
         for _ in range(n):
             a += [rng.choice(conds), rng.choice(vals)]
         return {'f': f, 'args': a}
-    keys = [enc(1), enc(2), enc('x'), enc('y'), enc(2.5)]
+    W = lambda n: {'t': 'num', 'n': n, 'd': 1, 'f': True}       # a whole number held as a float (4/2)
+    keys = [enc(1), enc(2), enc('x'), enc('y'), enc(2.5), W(1), W(2), enc('X'), enc('')]
     n = rng.randint(1, 3)
     a = [rng.choice(keys)]
     for _ in range(n):
